@@ -443,16 +443,18 @@ func serveStatus(wrt http.ResponseWriter, req *http.Request) {
 		Version:   currentVersion,
 		Build:     buildstamp,
 		Timestamp: types.TimeNow(),
-		Sessions:  make([]debugSession, 0, len(globals.sessionStore.sessCache)),
+		Sessions:  make([]debugSession, 0, 10),
 		Topics:    make([]debugTopic, 0, 10),
 		UserCache: make([]debugCachedUser, 0, 10),
 	}
 	// Sessions.
 	globals.sessionStore.Range(func(sid string, s *Session) bool {
+		s.subsLock.RLock()
 		keys := make([]string, 0, len(s.subs))
 		for tn := range s.subs {
 			keys = append(keys, tn)
 		}
+		s.subsLock.RUnlock()
 		sort.Strings(keys)
 		var clnode string
 		if s.clnode != nil {
